@@ -38,12 +38,28 @@ MANIFEST = dict(
           "resolve the formatter argument by the flavour, then render; KeyError from every method for unregistered names); "
           "custom_subst_scope_pretty; flavour_rule (_is_xml = nearest explicit known_xml on the way to the root, else the root's is_xml), "
           "output_calls_leave_no_trace + render_depends_on_current_tree_only (sessions of edits and output calls: an output call returns "
-          "what it returns on the documents produced by the edits alone, flavour taken from the element's current position). Tie: the constructor grid, formatter_for_name grid and "
+          "what it returns on the documents produced by the edits alone, flavour taken from the element's current position); builder side "
+          "(code-mirror of handle_starttag's attribute dict incl. on_duplicate_attribute, _replace_cdata_list_attribute_values, "
+          "can_be_empty_element, preserve_whitespace_tags): builder_sets_are_sets / builder_listing_order_irrelevant (empty_element_tags, "
+          "preserve_whitespace_tags, cdata_list_attributes and the sets in it are consulted through membership/lookup only: equivalent "
+          "configurations build the identical tree from every parse), duplicate_free_start_tag, source_attr_order_irrelevant (attribute "
+          "order in start tags, at any depth, never reaches any output method), output_is_function_of_tree_and_configuration (all of it "
+          "together with the regex listing and the formatter's cdata set, for every output method); code-mirror of "
+          "EntitySubstitution._populate_class_variables: populate_exclusive (for EVERY input table in which no long key is a proper prefix "
+          "of another and none starts with '&' the assembled alternatives are mutually exclusive), html5_table_ok (decide +kernel over the "
+          "whole stdlib html5 table), populate_order_irrelevant(_live) (any relisting of the look-ahead classes and of the alternatives "
+          "gives the same substitute_html); Formatter subclasses overriding attributes(): attributes_hook_default / _decides / "
+          "base_attributes_ignore_insertion_order. Every theorem with hypotheses is instantiated on concrete data. Tie: the constructor grid, formatter_for_name grid and "
           "rendering through every entry point on generated trees of both flavours, three-way: real code / direct oracle / Lean model; "
           "instrumented custom functions; all attribute insertion orders; histories (hand-made builder-less elements put into a tree of one "
           "flavour, read-only operations there, moved into a tree of another flavour, rendered from the element, its descendants, its "
           "parent and the root with names/None/bare functions: equal to a never-touched twin, to the oracle for the current flavour and to "
-          "the model's walk over the known_xml chain); subprocess runs under >= 8 PYTHONHASHSEED values: whole documents "
+          "the model's walk over the known_xml chain); parses under builder configurations (empty_element_tags / preserve_whitespace_tags / "
+          "multi_valued_attributes / on_duplicate_attribute at several values, start tags with repeated keys and whitespace-separated "
+          "values) against the model's build and an independent reading, then rendered three-way; the mirror of "
+          "_populate_class_variables run on the generated stdlib tables against the live regex particles, CHARACTER_TO_HTML_ENTITY and "
+          "HTML_ENTITY_TO_CHARACTER (all entries); subclasses overriding attributes() (insertion order / reverse sorted / base minus "
+          "data-*) x 3 base classes against the hook model; subprocess runs under >= 8 PYTHONHASHSEED values: whole documents "
           "byte-identical, and every multi-code-point entity key / every first code point of one followed by each second code point and "
           "other combining marks, as text and attribute value under 'html' and 'html5', equal to the independently computed "
           "longest-key substitution for every seed (regex_particles_regular + htmlAlts_exclusive are the matching table obligations)."),
@@ -54,7 +70,11 @@ MANIFEST = dict(
           "model (re.sub over the generated alternatives); substitute_html5 and user functions enter as the finite graph observed on "
           "the strings of the case (what html5 computes is C09's). PreformattedString.output_ready passes the string to the function "
           "'only to trigger side effects' (documented): the call log contains those calls, the output never depends on them. "
-          "Attribute values of cdata-containing tags are substituted (only NavigableStrings are exempt), and only the direct parent's "
+          "The tie between the model-assembled alternatives and the live pattern is by correspondence (compiled driver, all 1481 "
+          "alternatives and both dicts), not by a kernel computation (quadratic in the table). The builder-side model takes string classes "
+          "as given (string_containers is C13's), assumes tag names as html.parser reports them (lower case), and leaves callable "
+          "on_duplicate_attribute handlers and namespace prefixes of parsed tags out. renderHook (attributes() overridden) covers decode, "
+          "not prettify. Attribute values of cdata-containing tags are substituted (only NavigableStrings are exempt), and only the direct parent's "
           "name decides. Charset-substituting meta attribute values are C08's and are not generated here."),
     technique="Lean 4 proof (structural induction over trees, generated tables by decide +kernel) + differential correspondence + direct Python oracle + cross-process determinism runs",
 )
@@ -102,7 +122,8 @@ def E():
 
     def blank(s):
         return ""
-    _E["custom"] = [upper, ident, mark, quotes, blank]
+    # two anonymous functions: same __name__/__qualname__, different behaviour
+    _E["custom"] = [upper, ident, mark, quotes, blank, lambda s: s.lower(), lambda s: s[::-1]]
     return _E
 
 
@@ -117,7 +138,7 @@ def unptok(t):
 # ---------------------------------------------------------------------------------------------------------------------
 # option values and formatter specifications (JSON-able)
 # ---------------------------------------------------------------------------------------------------------------------
-ES_VALUES = [None, "xml", "html", "html5", "c0", "c1", "c2", "c3", "c4"]
+ES_VALUES = [None, "xml", "html", "html5", "c0", "c1", "c2", "c3", "c4", "c5", "c6"]
 VECP_VALUES = ["/", "", " /", None, "//"]
 CDATA_VALUES = [None, [], ["p"], ["b", "script"], ["script", "style", "pre", "div"]]
 EAB_VALUES = [False, True]
@@ -586,6 +607,8 @@ def run_entry(n, entry, farg, level=2):
             return n.format_string(n, farg)
     except KeyError:
         return ("EXC", "KeyError")
+    except Exception as ex:  # anything else the code raises is an observable too (never expected)
+        return ("EXC", type(ex).__name__)
     raise ValueError(entry)
 
 
@@ -632,6 +655,9 @@ def model_mode(n, entry, level=2):
     if entry == "contents-level":
         return f"Q{level}", decl, pt
     raise ValueError(entry)
+
+
+GRAPH_FNS = ["html5", "c0", "c1", "c2", "c3", "c4", "c5", "c6"]
 
 
 def graph_tokens(n, es_names):
@@ -790,6 +816,20 @@ def stream_ffn(ctx):
             lines.append(f"c15 ffn {1 if xml else 0} {ft}")
             impl.append("KeyError" if got is None else cfg_tok(got))
             metas.append((desc, fs, ok))
+    # instances of subclasses (attributes() overridden) are Formatter objects too: used as they are, by every element
+    for (code, cname), cls in sorted(hook_classes().items()):
+        obj = cls(entity_substitution=es_value("xml")) if cname != "F" else cls("html", es_value("xml"))
+        for desc, el, xml in flavour_elements():
+            try:
+                got = el.formatter_for_name(obj)
+            except Exception as ex:
+                got = "!" + type(ex).__name__
+            ctx.case(("ffn-subclass", desc, code, cname))
+            ctx.count("ffn:subclass-instance")
+            if got is not obj:
+                report(ctx, "formatter_for_name", "an instance of a Formatter subclass is not used as it is",
+                       case={"op": "ffn-subclass", "element": desc, "hook": code, "class": cname}, expected="the object itself",
+                       observed=got if isinstance(got, str) else type(got).__name__, kf=None)
     rep = Driver().ask(lines)
     for l, a, b, (desc, fs, ok) in zip(lines, impl, rep, metas):
         if a != b:
@@ -878,7 +918,7 @@ def check_render(ctx, batch, recipe, soup, path, fs, entry, stream, level=2):
         return ok
     mfs = fs if entry != "str" else {"how": "name", "name": "minimal"}
     mode, prefix, pt = model_mode(n, entry, level)
-    g = graph_tokens(n, ["html5", "c0", "c1", "c2", "c3", "c4"])
+    g = graph_tokens(n, GRAPH_FNS)
     batch.add(f"c15 run {1 if xml else 0} {fmt_tok(mfs)} {mode} {pt} {len(g)} {' '.join(g)} {tree_tokens(n)}".replace("  ", " "),
               real, prefix, case, ok)
     return ok
@@ -982,7 +1022,10 @@ def stream_call_log(ctx, ntrees):
         tags = [p for n, p in all_nodes(soup) if is_tag(n)]
         path = r.choice(tags)
         n = node_at(soup, path)
-        out = n.decode(formatter=farg)
+        try:
+            out = n.decode(formatter=farg)
+        except Exception as ex:
+            out = "!" + type(ex).__name__
         want_log = []
         want = show(oracle_entry(n, "decode", opts, log=want_log))
         case = {"op": "calllog", "recipe": recipe, "path": list(path), "how": how, "cls": cls, "cdata": cd, "eab": eab}
@@ -1504,7 +1547,7 @@ def check_history(ctx, batch, sc, stream="history"):
             continue
         mode, prefix, pt = model_mode(n, entry)
         ch, ra = chain_of(n, flags)
-        g = graph_tokens(n, ["html5", "c0", "c1", "c2", "c3", "c4"])
+        g = graph_tokens(n, GRAPH_FNS)
         batch.add(f"c15 runat {ch} {ra} {fmt_tok(fs)} {mode} {pt} {len(g)} {' '.join(g)} {tree_tokens(n)}".replace("  ", " "),
                   real, prefix, case, real == want and real == real0)
 
@@ -1844,7 +1887,10 @@ def stream_hooks(ctx, n):
             continue
         path = r.choice(tags)
         nd = node_at(soup, path)
-        real = nd.decode(formatter=f)
+        try:
+            real = nd.decode(formatter=f)
+        except Exception as ex:
+            real = "!" + type(ex).__name__
         opts = intended(spec)
         pn = nd.parent.name if nd.parent is not None else None
         want = HookOracle(opts, code).node(nd, pn)
@@ -1856,7 +1902,7 @@ def stream_hooks(ctx, n):
             report(ctx, "attributes-hook", "output does not follow the attributes() of the Formatter subclass", case=case, expected=want,
                    observed=real, kf=None)
         pt = "N" if nd.parent is None else ptok(nd.parent.name)
-        g = graph_tokens(nd, ["html5", "c0", "c1", "c2", "c3", "c4"])
+        g = graph_tokens(nd, GRAPH_FNS)
         lines.append(f"c15 runhook {code} {ctor_fmt_tok(spec)} {pt} {len(g)} {' '.join(g)} {tree_tokens(nd)}".replace("  ", " "))
         impl.append(ptok(real))
         metas.append((case, real == want))
@@ -1969,6 +2015,17 @@ def replay(path):
         b = build_tree(c["recipe_b"]).decode(formatter=fa)
         print("same attributes inserted in two orders:\n ", ascii(a), "\n ", ascii(b))
         return 0 if a == b else 1
+    if op == "ffn-subclass":
+        els = {d: el for d, el, xml in flavour_elements()}
+        cls = hook_classes()[(c["hook"], c["class"])]
+        obj = cls(entity_substitution=es_value("xml")) if c["class"] != "F" else cls("html", es_value("xml"))
+        try:
+            got = els[c["element"]].formatter_for_name(obj)
+        except Exception as ex:
+            got = "!" + type(ex).__name__
+        print("formatter_for_name(<instance of a subclass of", c["class"], ">) on", c["element"], "->", got if isinstance(got, str) else type(got).__name__,
+              "(the object itself)" if got is obj else "(NOT the object passed in)")
+        return 0 if got is obj else 1
     if op == "hook":
         soup = build_tree(c["recipe"])
         nd = node_at(soup, tuple(c["path"]))
